@@ -495,6 +495,10 @@ class ImmutableVersion(dns.zone.Version):
         c.seek(target, False)
         left = c.prev()
         assert left is not None
+        while left.value().is_glue():
+            # An occluded name is never a bound; keep going left to the cut (or beyond).
+            left = c.prev()
+            assert left is not None
         c.next()  # skip over left
         while True:
             right = c.next()
